@@ -1301,3 +1301,125 @@ Example match_iff_flat_fine_nontrivial :
   /\ match_route None rs p = MYes [(0%nat, [47;98]); (1%nat, [47;112;47;52])] [([120], [52])]
   /\ flat_any None rs p = true.
 Proof. cbv zeta. split; [|split; [|split; [|split; [|split]]]]; vm_compute; reflexivity. Qed.
+
+(** ================================================================================
+    build_then_match about the REAL path builder (Router/Build.v = StaticPath::into_paths)
+    ================================================================================ *)
+From LV Require Import Router.Build.
+
+(** every prerendered value is a non-empty run without '/' *)
+Definition pm_ok (pm : pmap) : Prop :=
+  forall n vs, pm_get pm n = Some vs -> Forall (fun v => v <> [] /\ has_slash v = false) vs.
+
+Lemma join_static_build : forall p s,
+  join_static p s = p ++ (if needs_sep s then [slash] else []) ++ s.
+Proof.
+  intros p [|c s]; unfold join_static, needs_sep, starts_with_slash.
+  - reflexivity.
+  - destruct (c =? slash); reflexivity.
+Qed.
+
+Lemma join_value_ok : forall p v, v <> [] -> has_slash v = false -> join_value p v = p ++ slash :: v.
+Proof.
+  intros p [|c v] Hne Hs; [now elim Hne|]. unfold join_value, starts_with_slash.
+  cbn [has_slash existsb] in Hs. apply orb_false_iff in Hs. destruct Hs as [Hc _]. now rewrite Hc.
+Qed.
+
+Lemma paths_from_nil : forall f pm paths, paths_from [] f pm = Some paths -> paths = [].
+Proof.
+  induction f as [|x f IH]; intros pm paths H; cbn [paths_from] in H.
+  - now inversion H.
+  - destruct x; try discriminate; cbn [map flat_map] in H; try (now apply IH in H).
+    + destruct (pm_get pm n); now apply IH in H.
+    + destruct (pm_get pm n); now apply IH in H.
+Qed.
+
+Lemma paths_from_spec :
+  forall f pm, existsb is_popt f = false -> wf_flat f = true -> pm_ok pm ->
+  forall acc paths, paths_from acc f pm = Some paths ->
+  forall p, In p paths -> exists a vals, In a acc /\ p = a ++ build f vals /\ vals_ok f vals.
+Proof.
+  induction f as [|x f IH]; intros pm Ho Hw Hpm acc paths H p Hp.
+  - cbn in H. inversion H; subst. exists p, []. repeat split; auto. now rewrite app_nil_r.
+  - cbn [existsb] in Ho. apply orb_false_iff in Ho. destruct Ho as [Hx Ho].
+    destruct x as [s|n|n|n|]; cbn [is_popt] in Hx; try discriminate; cbn [paths_from wf_flat] in *.
+    + destruct (IH pm Ho Hw Hpm _ _ H p Hp) as (a' & vals & Ha' & -> & Hv).
+      apply in_map_iff in Ha'. destruct Ha' as (a & <- & Ha).
+      exists a, vals. repeat split; auto. cbn [build]. now rewrite join_static_build, <- !app_assoc.
+    + apply andb_prop in Hw. destruct Hw as [Hn Hw].
+      destruct (pm_get pm n) as [vs|] eqn:Eg; [|apply paths_from_nil in H; subst; now elim Hp].
+      destruct (IH pm Ho Hw Hpm _ _ H p Hp) as (a' & vals & Ha' & -> & Hv).
+      apply in_flat_map in Ha'. destruct Ha' as (a & Ha & Ha').
+      apply in_map_iff in Ha'. destruct Ha' as (v & <- & Hvin).
+      pose proof (Hpm n vs Eg) as Hvs. rewrite Forall_forall in Hvs. destruct (Hvs v Hvin) as [Hne Hsl].
+      exists a, (v :: vals). repeat split; auto.
+      cbn [build]. unfold name_ok in Hn. rewrite Hn, (join_value_ok _ _ Hne Hsl), <- !app_assoc. reflexivity.
+    + apply andb_prop in Hw. destruct Hw as [Hn Hw]. destruct f; [|discriminate].
+      destruct (pm_get pm n) as [vs|] eqn:Eg; [|cbn in H; inversion H; subst; now elim Hp].
+      cbn [paths_from] in H. inversion H; subst.
+      apply in_flat_map in Hp. destruct Hp as (a & Ha & Ha').
+      apply in_map_iff in Ha'. destruct Ha' as (v & <- & Hvin).
+      pose proof (Hpm n vs Eg) as Hvs. rewrite Forall_forall in Hvs. destruct (Hvs v Hvin) as [Hne Hsl].
+      exists a, [v]. repeat split; auto.
+      cbn [build]. unfold name_ok in Hn. rewrite Hn, (join_value_ok _ _ Hne Hsl). cbn [app].
+      now rewrite app_nil_r.
+    + destruct (IH pm Ho Hw Hpm _ _ H p Hp) as (a' & vals & Ha' & -> & Hv).
+      exists a', vals. repeat split; auto.
+Qed.
+
+Theorem build_then_match_real :
+  forall base rs i f e pm paths p,
+    wf_tree rs = true -> wf_routes rs = true ->
+    nth_error (gen_routes rs) i = Some f -> In e (expand_optionals f) ->
+    pm_ok pm ->
+    into_paths (registered base e) pm = Some paths -> In p paths ->
+    starts_with_slash p = true -> known_class base rs p = false ->
+    exists vals ch ps,
+      vals_ok e vals /\ p = built base e vals
+      /\ match_route base rs p = MYes ch ps
+      /\ (exists pre g post e',
+            table base (gen_routes rs) = pre ++ g :: post
+            /\ Forall (fun x => route_matches_flat x p = false) pre
+            /\ In e' (expand_optionals g) /\ flat_match e' p = Some ps)
+      /\ (existsb is_popt f = false ->
+          Forall (fun x => route_matches_flat x p = false) (firstn i (table base (gen_routes rs))) ->
+          ps = bindings f vals).
+Proof.
+  intros base rs i f e pm paths p Hwt Hwf Hi He Hpm Hip Hp Hsl Hk.
+  assert (Hinf : In f (gen_routes rs)) by (eapply nth_error_In; eauto).
+  assert (Hfw : wf_flat f = true)
+    by (unfold wf_routes in Hwf; rewrite forallb_forall in Hwf; now apply Hwf).
+  assert (Heo : existsb is_popt e = false).
+  { destruct (expand_optionals_spec f) as [Hall _]. rewrite Forall_forall in Hall. now apply Hall. }
+  pose proof (wf_flat_expand _ _ Hfw He) as Hew.
+  assert (Hb : exists vals, vals_ok e vals /\ p = built base e vals).
+  { unfold into_paths, registered in Hip. destruct base as [b|].
+    - destruct (known_class_parts _ _ _ Hk) as (_ & _ & Hbase & _ & _).
+      unfold base_untame in Hbase. apply orb_false_iff in Hbase. destruct Hbase as [Hbase _].
+      apply orb_false_iff in Hbase. destruct Hbase as [Hbs _]. apply negb_false_iff in Hbs.
+      cbn [paths_from map] in Hip.
+      destruct (paths_from_spec e pm Heo Hew Hpm _ _ Hip p Hp) as (a & vals & Ha & -> & Hv).
+      destruct Ha as [<-|[]]. exists vals. split; [exact Hv|].
+      unfold join_static. rewrite Hbs. reflexivity.
+    - destruct (paths_from_spec e pm Heo Hew Hpm _ _ Hip p Hp) as (a & vals & Ha & -> & Hv).
+      destruct Ha as [<-|[]]. exists vals. split; [exact Hv|].
+      cbn [app built] in *. unfold build_path. destruct (build e vals); [discriminate|reflexivity]. }
+  destruct Hb as (vals & Hv & Hpb).
+  destruct (build_then_match_any base rs i f e vals p Hwt Hwf Hi He Hv Hpb Hk)
+    as (ch & ps & Hm & Hfirst & Hps).
+  exists vals, ch, ps. repeat split; auto.
+Qed.
+
+(* the builder itself is partial: OptionalParam is todo!() (F-C14-e) *)
+Theorem into_paths_total_refuted :
+  exists f pm, into_paths f pm = None.
+Proof. exists [PStatic [97]; POpt [120]], [([120], [[98]])]. reflexivity. Qed.
+
+Example build_then_match_real_nontrivial :
+  let rs := [Route (SStatic [47;98]) (Some [Route (STuple [SStatic [112]; SParam [105;100]]) None])] in
+  let pm := [([105;100], [[52;50]; [55]])] in
+  into_paths (registered (Some [47;120]) [PStatic [47;98]; PStatic [112]; PParam [105;100]]) pm
+  = Some [[47;120;47;98;47;112;47;52;50]; [47;120;47;98;47;112;47;55]]
+  /\ match_route (Some [47;120]) rs [47;120;47;98;47;112;47;55]
+     = MYes [(0%nat, [47;98]); (1%nat, [47;112;47;55])] [([105;100], [55])].
+Proof. vm_compute. split; reflexivity. Qed.
